@@ -439,7 +439,7 @@ def draw_frame(draw, g, fidx, rows=None):
                     if 'coordinates' not in g.ops[k]['attrs']
                     or len(model.flatten(g.ops[k]['attrs']['coordinates']['v'])) == dim[0]]
             if axes and draw(st.booleans()):
-                op['attrs']['axis'] = {'v': [{'$ref': draw(st.sampled_from(axes))}], 'r': 'kw'}
+                op['attrs']['axis'] = {'v': [{'$ref': draw(st.sampled_from(axes))}], 'r': draw_route(draw, p, False)}
         sn = g.set_for(draw, 'channel')
         if sn is not None:
             op['set'] = sn
@@ -502,7 +502,7 @@ def draw_dimension_and_axis(draw, g, op, dims):
     if draw(st.booleans()):
         refs = pick_axes(draw, g, dims)
         if refs:
-            op['attrs']['axis'] = {'v': refs, 'r': 'kw'}
+            op['attrs']['axis'] = {'v': refs, 'r': draw_route(draw, p, False)}
 
 
 # ------------------------------------------------------------------ metadata objects with their inter-attribute rules
